@@ -33,7 +33,7 @@ def _batch(ch: Any, n: int) -> Dict[str, Any]:
     for k in range(n):
         notification = ch.flag(1, 4, 'el.notification')
         for _ in range(6):
-            el, kind = S.gen_element(ch, f't{k}', ids[k], notification, True)
+            el, kind = S.gen_element(ch, f't{k}', ids[k], notification, True, reentrant=True)
             if kind != 'invalid' and C._tok(el.get('params', [])) is not None:
                 break
         else:
